@@ -39,6 +39,8 @@ func runC09(c *an.Ctx) {
 	r09l(c)
 	r09m(c)
 	c.As(map[string]string{"R02t": "R09n"}, func() { r02t(c) })
+	// round 9
+	r09o(c)
 }
 
 // R09g: a hook task counts as failed whenever it did not exit with code 0 - also when it was terminated by a signal
@@ -229,7 +231,8 @@ func r09a(c *an.Ctx) {
 		// errors are reported through Cancel (sets e.Err) on the non-nil edge
 		reported := false
 		for _, cn := range an.CallsNamed(f, fsmCancel) {
-			if len(an.Atoms(cn.Block())) > 0 {
+			// conditional (the guard may be a disjunction `a != nil || b != nil`, which has no dominating conjunction)
+			if len(an.Atoms(cn.Block())) > 0 || len(an.ControlConds(cn.Block())) > 0 {
 				reported = true
 			}
 		}
